@@ -12,6 +12,8 @@ import (
 	"github.com/janelia-flyem/dvid/dvid"
 	"github.com/janelia-flyem/dvid/storage"
 	_ "github.com/janelia-flyem/dvid/storage/filelog"
+	"io"
+	"time"
 )
 
 func init() { register("C04", runC04) }
@@ -361,6 +363,71 @@ func c04Crash(c *Ctx) {
 		c04FileCreationCrash(c, ops, snaps, ext)
 	}
 	c04CeilingAfterRecovery(c)
+	c04KillDuringSingleKeyWrites(c)
+}
+
+// c04KillDuringSingleKeyWrites: keys hold a value at a committed parent and an own value at the child; the process
+// is killed while many single-key deletions (and, on other keys, re-writes) of the child are in flight.  After
+// recovery every key must read at the child as before its request (own value) or as after it (gone / the new
+// value) — never the parent's value showing through, which is the state between the two store entries a
+// versioned delete touches.
+func c04KillDuringSingleKeyWrites(c *Ctx) {
+	r := c.Rng.Fork()
+	rounds, n := 2, 12000
+	if c.Thorough {
+		rounds, n = 6, 30000
+	}
+	for round := 0; round < rounds; round++ {
+		func() {
+			dir := scratchDir("c04k")
+			defer os.RemoveAll(dir)
+			ch, msg := StartChild(dir, nil)
+			if ch == nil {
+				c.Report("H", "C04 child-start", msg, "")
+				return
+			}
+			defer func() {
+				if ch != nil {
+					ch.Kill()
+				}
+			}()
+			resp, _ := ch.HTTP("POST", "repos", []byte(`{"alias":"k","description":"d"}`))
+			root := jsonField(resp.Body, "root")
+			ch.HTTP("POST", "repo/"+root+"/instance", []byte(`{"typename":"keyvalue","dataname":"kv"}`))
+			ch.AskT(fmt.Sprintf("BURST POST %s kv %d 8 parent", root, n), 120*time.Second)
+			ch.HTTP("POST", "node/"+root+"/commit", []byte(`{"note":"c"}`))
+			vr, _ := ch.HTTP("POST", "node/"+root+"/newversion", []byte(`{"note":"v"}`))
+			child := jsonField(vr.Body, "child")
+			if a, _ := ch.AskT(fmt.Sprintf("BURST POST %s kv %d 8 own", child, n), 120*time.Second); !strings.HasPrefix(a, "ok") {
+				c.Report("H", "C04 burst-setup", a, "")
+				return
+			}
+			delay := time.Duration(20+r.Intn(250)) * time.Millisecond
+			io.WriteString(ch.in, fmt.Sprintf("BURST DELETE %s kv %d 8 -\n", child, n))
+			time.Sleep(delay)
+			ch.Kill()
+			ch2, msg := StartChild(dir, nil)
+			if ch2 == nil {
+				c.Report("O", "C04 no-recovery", "the server does not start again after a kill during single-key deletions", msg)
+				ch = nil
+				return
+			}
+			ch = ch2
+			a, _ := ch.AskT(fmt.Sprintf("TORN %s kv %d own parent", child, n), 120*time.Second)
+			var own, gone, torn, other, first int
+			fmt.Sscanf(a, "own=%d gone=%d torn=%d other=%d first=%d", &own, &gone, &torn, &other, &first)
+			c.Eval(fmt.Sprintf("kill during single-key deletes round %d", round), gone > 0 && own > 0)
+			c.Count("kill-during-deletes")
+			if gone > 0 && own > 0 {
+				c.Count("kill-during-deletes: kill landed inside the burst")
+			}
+			if torn > 0 || other > 0 {
+				g, _ := ch.HTTP("GET", fmt.Sprintf("node/%s/kv/key/k%d", child, first), nil)
+				c.Report("O", "C04 torn-single-key-delete", "after a kill during single-key deletions a key reads as neither before nor after its deletion",
+					fmt.Sprintf("%d keys: value parent-<i> at the committed root, value own-<i> at the child; 8 concurrent workers DELETE key/k<i> at the child; process killed %v after the burst started; restarted on the same store\nat the child: %d keys still hold their own value, %d are gone, %d read the PARENT's value (neither state), %d read something else\nGET key/k%d at the child -> %s", n, delay, own, gone, torn, other, first, g))
+			}
+		}()
+	}
 }
 
 // c04CeilingAfterRecovery: what a recovered process hands out must again be covered by what it persisted — a
